@@ -5,3 +5,4 @@ import CatiiModel.Kernels
 import CatiiModel.Indx
 import CatiiModel.Cube
 import CatiiModel.IIndex
+import CatiiModel.Agg
